@@ -21,6 +21,6 @@ Extraction "model.ml"
   ps0 pstep alloc_from_last max_pools count sp_add sp_deref sp_refs
   a_init astep elements
   sb_init sb_step n_content bf_init bf_step
-  copy_budget slots
+  copy_budget slots read_budget
   copy_array_1d copy_array_2d copy_string
   mp_binary_raw mp_extension_raw mp_binary_of_raw mp_extension_of_raw.
